@@ -15,7 +15,8 @@ from ..base import Violation
 
 RULE = ("cases: (backend in inmem/sqlite, magnitude in unit/projected-metres(5e6..7e6)/degrees, graph, query location, "
         "radius, max_elmt in None/0/1/3); query drawn relative to the content: node at distance r-eps along an axis, node "
-        "exactly at r, long edge through the disc with both end points outside, near an edge, random; non-trivial = the true "
+        "exactly at r, long edge through the disc with both end points outside, near an edge, random; a third of the SQLite maps "
+        "loaded call by call from a generated load plan, a third of the in-memory maps queried (same radius) while still growing; non-trivial = the true "
         "answer of the node or the edge query is non-empty and a proper subset of the map; distinct = case JSON")
 ASSUMPTIONS = ["InMemMap without rtree index (rtree is not installed), SqliteMap with integer labels",
                "planar: element with |d-r| <= 1e-12*max(1,|coord|,r) and d != r is 'don't care'; d == r exactly (decided in rational "
